@@ -605,6 +605,10 @@ class MementoFunction(MementoFunctionBase):
         fn_ref_args = self._extract_fn_ref_args(
             caller_args, caller_kwargs, caller_context_args
         )
+        # Arguments bound earlier with partial() are arguments of the call as well
+        fn_ref_args |= self._extract_fn_ref_args(
+            caller_ref.partial_args, caller_ref.partial_kwargs, None
+        )
 
         # Any dependency is a valid function
         valid_fns = {
